@@ -9,9 +9,11 @@ for **all** node trees, **all** finders (the Python-level call finder is an orac
 Three statements of the property are false for the code as it is; each is kept as an `OPEN` statement,
 proved with an explicit guard (`…_partial`) and refuted on a witness (`…_counterexample`):
 
-* `every_call_once`   – calls inside an expression's filter list (F10) and inside tags whose children
-                        `extract_nodes` never visits (`<%namespace>` bodies) are not handed to the finder;
-* `reported_line`     – Babel: wrong when the code string does not start on the node's first line (F7);
+* `every_call_once`   – constructs below tags whose children `extract_nodes` never visits (`<%namespace>`
+                        bodies) are not handed to the finder.  (Filter lists are handed over since 5365b81:
+                        the expression branch now passes `(code), (filters,)`.)
+* `reported_line`     – Babel: wrong when the code string does not start on the node's first line (F7: attributes
+                        on later lines of a tag; a filter list written on the line after the `|`);
                         Lingua: always one line too low, and lower still by the blank lines `strip()` removes;
 * `translator_comments_window` – a comment block that was not used stays pending and is attached, together
                         with a later block, to a construct further down.
@@ -24,30 +26,41 @@ def core (m : Msg) : Int × Str × Str := (m.line, m.func, m.payload)
 
 /-! ## every call once, nothing from text -/
 
-/- OPEN (false today, see `every_call_once_counterexample`, `every_call_once_counterexample_namespace`):
+/- OPEN (false today, see `every_call_once_counterexample_namespace`):
 
 theorem every_call_once {α} (tags : List Str) (proc : Proc α) (nodes : List Node) :
     handed tags proc nodes = (sites nodes).map Site.key
 
-"every Python-bearing place of the template – `sites`: the code of every expression, control line, block,
-def/block/page signature, `<%call>`/`<%ns:def>` argument list **and every non-empty filter list**, at any depth –
-is handed to the finder exactly once, in document order, and nothing else is"
+"every Python-bearing construct of the template – `sites`: every expression **with its filter list**, control line,
+block, def/block/page signature, `<%call>`/`<%ns:def>` argument list, at any depth – is handed to the finder exactly
+once, in document order, as the one string `Site.text` that carries its Python, and nothing else is"
 -/
 
 /-- The code strings handed to `process_python` (with the line of their node) are exactly the Python-bearing
-    places of the template that are **not a filter list** and **not below a tag whose children are skipped**,
-    each once, in document order – whatever `process_python` does and whatever the comment tags are. -/
+    constructs of the template that are **not below a tag whose children are skipped**, each once, in document
+    order, as the string `Site.text` (the code; for an expression with filters `(code), (filters,)`) – whatever
+    `process_python` does and whatever the comment tags are.  Filter lists are included. -/
 theorem every_call_once_partial {α} (tags : List Str) (proc : Proc α) (nodes : List Node) :
     handed tags proc nodes = ((sites nodes).filter Site.visible).map Site.key := by
   unfold handed sites
   exact handed_list tags proc nodes St.clean
 
-/-- Babel: the reported (line, function, messages) are, for every visible Python-bearing place in document
-    order, the finder's hits in that place's code – every call once, nothing else, for every finder. -/
+/-- …and every Python text of such a construct – the code and the filter list – is written, contiguously, in the
+    string handed over for it (so a call located in either lies in that one string). -/
+theorem every_python_text_handed {α} (tags : List Str) (proc : Proc α) (nodes : List Node) :
+    ∀ s ∈ (sites nodes).filter Site.visible, ∀ p ∈ s.parts,
+      ∃ h ∈ handed tags proc nodes, h.1 = s.lineno ∧ p <:+: h.2 := by
+  intro s hs p hp
+  refine ⟨Site.key s, ?_, rfl, Site.parts_in_text s p hp⟩
+  rw [every_call_once_partial]
+  exact List.mem_map.mpr ⟨s, hs, rfl⟩
+
+/-- Babel: the reported (line, function, messages) are, for every visible Python-bearing construct in document
+    order, the finder's hits in that construct's string – every call once, nothing else, for every finder. -/
 theorem every_call_reported_once_babel (finder : Finder) (commentTags : List Str) (nodes : List Node) :
     (extractBabel finder commentTags nodes).map core =
       ((sites nodes).filter Site.visible).flatMap fun s =>
-        (finder (babelPrep s.code)).map fun h =>
+        (finder (babelPrep s.text)).map fun h =>
           (((s.lineno : Int) - 1) + ((h.line : Int) - 1), h.func, h.payload) := by
   unfold extractBabel
   rw [extract_by_site _ (babelProc finder) core]
@@ -59,7 +72,7 @@ theorem every_call_reported_once_babel (finder : Finder) (commentTags : List Str
 theorem every_call_reported_once_lingua (finder : Finder) (cfgTags : Str) (nodes : List Node) :
     (extractLingua finder cfgTags nodes).map core =
       ((sites nodes).filter Site.visible).flatMap fun s =>
-        (finder (linguaPrep s.code)).map fun h =>
+        (finder (linguaPrep s.text)).map fun h =>
           ((((s.lineno : Int) - 1) - 1) + (h.line : Int), h.func, h.payload) := by
   unfold extractLingua
   rw [extract_by_site _ (linguaProc finder) core]
@@ -67,36 +80,38 @@ theorem every_call_reported_once_lingua (finder : Finder) (cfgTags : Str) (nodes
   · intro code l ts
     simp [linguaProc, linguaMsg, core, Function.comp_def]
 
-/-- Nothing is handed over that is not the code of a Python-bearing node: no `Text`, `<%text>` body,
-    `<%doc>` or `##` comment (all of them `Kind.text` / `Kind.comment` nodes) ever reaches the finder. -/
+/-- Nothing is handed over that does not come from a Python-bearing node: the string is that node's code, or – for
+    an expression – the wrapper around its code and its filter list.  No `Text`, `<%text>` body, `<%doc>` or `##`
+    comment (all of them `Kind.text` / `Kind.comment` nodes) ever reaches the finder. -/
 theorem nothing_from_text {α} (tags : List Str) (proc : Proc α) (nodes : List Node) :
     ∀ p ∈ handed tags proc nodes,
-      ∃ m ∈ allNodesList nodes, m.kind.pythonBearing = true ∧ p = (m.lineno, m.code) := by
+      ∃ m ∈ allNodesList nodes, m.kind.pythonBearing = true ∧ p.1 = m.lineno ∧
+        (p.2 = m.code ∨ (m.kind = .expr ∧ p.2 = wrapExpr m.code m.esc)) := by
   intro p hp
   rw [every_call_once_partial] at hp
   obtain ⟨s, hs, rfl⟩ := List.mem_map.mp hp
-  obtain ⟨hs1, hs2⟩ := List.mem_filter.mp hs
-  obtain ⟨m, hm, h⟩ := sites_from_nodes_list false nodes s hs1
-  rcases h with ⟨_, hk, hl, hc⟩ | ⟨hf, _⟩
-  · exact ⟨m, hm, hk, by simp [Site.key, hl, hc]⟩
-  · simp [Site.visible, hf] at hs2
+  obtain ⟨hs1, _⟩ := List.mem_filter.mp hs
+  obtain ⟨m, hm, hk, hl, hc, hf⟩ := sites_from_nodes_list false nodes s hs1
+  refine ⟨m, hm, hk, by simp [Site.key, hl], ?_⟩
+  rcases hf with hf | ⟨he, hf⟩
+  · left; simp [Site.key, Site.text, hf, hc]
+  · by_cases h0 : s.filter = []
+    · left; simp [Site.key, Site.text, h0, hc]
+    · right; exact ⟨he, by simp [Site.key, Site.text, h0, hc, hf, wrapExpr]⟩
 
 /-- `${x | f(_('m'))}` -/
-def witnessF10 : List Node :=
+def witnessFilter : List Node :=
   [.mk .expr 1 ['x', ' '] ['f', '(', '_', '(', '\'', 'm', '\'', ')', ')'] [] []]
 
-/-- a finder that knows the one call of the witness -/
-def finderF10 : Finder := fun c =>
-  if c = babelPrep ['f', '(', '_', '(', '\'', 'm', '\'', ')', ')'] then [⟨2, ['_'], ['m'], []⟩] else []
+/-- a finder that knows the one call of the witness: in `(x ), (f(_('m')),)` it is on line 2 of `"\n" + code` -/
+def finderFilter : Finder := fun c =>
+  if c = babelPrep (wrapExpr ['x', ' '] ['f', '(', '_', '(', '\'', 'm', '\'', ')', ')'])
+  then [⟨2, ['_'], ['m'], []⟩] else []
 
-/-- F10: the filter list of `${x | f(_('m'))}` is a Python-bearing place that is never handed to the finder;
-    with a finder that sees the call in it, nothing is reported. -/
-theorem every_call_once_counterexample :
-    handed [] (babelProc finderF10) witnessF10 ≠ (sites witnessF10).map Site.key ∧
-    extractBabel finderF10 [] witnessF10 = [] ∧
-    ((sites witnessF10).flatMap fun s => (finderF10 (babelPrep s.code)).map fun h => (h.func, h.payload))
-      = [(['_'], ['m'])] := by
-  decide
+/-- non-vacuity, and the former F10 witness: the call in the filter list of `${x | f(_('m'))}` is now reported,
+    on line 1 -/
+example : extractBabel finderFilter [] witnessFilter = [⟨1, ['_'], ['m'], []⟩] ∧
+    handed [] (babelProc finderFilter) witnessFilter = (sites witnessFilter).map Site.key := by decide
 
 /-- `<%namespace name="n"><%def name="f()">${_('m')}</%def></%namespace>` -/
 def witnessNs : List Node :=
@@ -105,14 +120,14 @@ def witnessNs : List Node :=
 
 /-- a def inside a `<%namespace>` tag is never visited -/
 theorem every_call_once_counterexample_namespace :
-    handed [] (babelProc finderF10) witnessNs = [] ∧ ((sites witnessNs).map Site.key).length = 2 := by
+    handed [] (babelProc finderFilter) witnessNs = [] ∧ ((sites witnessNs).map Site.key).length = 2 := by
   decide
 
 /-- non-vacuity: a def with a signature, an expression with a filter and a control line -/
-example : handed [] (babelProc finderF10)
+example : handed [] (babelProc finderFilter)
     [.mk .defTag 1 ['d'] [] [] [.mk .expr 2 ['a'] ['h'] [] [], .mk .text 2 [] [] ['t'] []],
      .mk .ctl 4 ['i', 'f', ' ', 'x', ':'] [] [] [], .mk .ctlEnd 5 [] [] [] []]
-    = [(1, ['d']), (2, ['a']), (4, ['i', 'f', ' ', 'x', ':'])] := by decide
+    = [(1, ['d']), (2, ['(', 'a', ')', ',', ' ', '(', 'h', ',', ')']), (4, ['i', 'f', ' ', 'x', ':'])] := by decide
 
 /-! ## the reported line -/
 
